@@ -1550,6 +1550,8 @@ class BaseSpaceImpl(*_base_space_impl_base):
             cells.clear_all_values(clear_input=True)
             self.model.clear_obj(cells)     # Node of an uncached cells
             cells.on_delete()
+        for ref in self.own_refs.values():  # Values read through attributes
+            self.model.clear_attr_referrers(ref)
         super().on_delete()
 
 
@@ -1958,9 +1960,17 @@ class UserSpaceImpl(*_user_space_impl_base):
         self.own_refs[name].on_delete()
         self.own_refs.del_item(name)
 
+    def clear_refs_referrers(self):
+        """Clear the values read through the references in self's tree"""
+        for ref in self.own_refs.values():
+            self.model.clear_attr_referrers(ref)
+        for space in self.named_spaces.values():
+            space.clear_refs_referrers()
+
     def on_rename(self, name):
         self.model.clear_obj(self)
         self.clear_all_cells(clear_input=True, recursive=True, del_items=True)
+        self.clear_refs_referrers()
         old_name = self.name
         self.name = name
         self.parent.named_spaces.rename_item(old_name, name)
